@@ -29,7 +29,8 @@ RULE = (
     "part refusals: op histories biased to documented-invalid arguments (uniqueness collisions by every route, "
     "`before` node that is not a child of the target - also a stale reference to a node that has left the tree, "
     "used below its former parent after that parent got new children -, move into the own branch / across trees / in typed trees, "
-    "set_data on clones without decision, copy_to(add_self=False) of a leaf, del of absent/ambiguous keys); oracle: "
+    "set_data on clones without decision, copy_to(add_self=False) of a leaf, del of absent/ambiguous keys, ID arguments "
+    "for node copies; a node_id that is already in use is run as documentation-silent: if it raises, nothing may have changed); oracle: "
     "if the call raises, the full observation (node identity, data, ids, kinds, meta, order) AND the index probes "
     "(count, count_unique, find_all per id, find_first(node_id)) equal those taken before the call. part faults: for "
     "each of ~30 operations that take a user callback (calc_data_id, predicate, mapper, sort key, visitor, repr) the "
@@ -520,7 +521,7 @@ def _run_calc_op(name, tree, nodes, data_of):
 def refusal_cases(draw, tier):
     typed = draw(st.sampled_from([False, False, True]))
     kinds = ["add", "add", "add_node", "add_node", "copy_to", "move", "move", "set_data", "rename", "del", "remove",
-             "add_tree", "append_sibling", "prepend_sibling", "append_child", "remove"]
+             "add_tree", "append_sibling", "prepend_sibling", "append_child", "remove", "add_node_ids", "shortcut_tree"]
     case = draw(gen_ops.histories(typed=typed, max_ops=25 if tier == "quick" else 50, kinds=kinds, max_nodes=12, invalid_bias=True))
     if draw(st.sampled_from([0, 0, 1])):
         # directed tail: children leave a parent (the caller keeps the references), the parent gets new children,
